@@ -305,6 +305,7 @@ class ScriptedBootloader(object):
 
   def __init__(self, responses):
     self.responses = collections.deque(responses)
+    self.max_packets = 64
     self.packets = []
     self.reads = 0
     self.closed = False
@@ -317,7 +318,13 @@ class ScriptedBootloader(object):
 
   def write(self, data, timeout_ms=None):
     self.packets.append(data)
+    if len(self.packets) > self.max_packets:
+      raise RunawayError('host wrote more than %d packets' % self.max_packets)
     return len(data)
 
   def close(self):
     self.closed = True
+
+
+class RunawayError(BaseException):
+  """Raised by a fake when the code under test loops without bound (turned into a violation, not a hang)."""
